@@ -52,8 +52,9 @@ func enumPaths(te string, depth int, target bool) []pinfo {
 			}
 		default:
 			if st, ok := structTypes[base]; ok {
-				for i := 0; i < st.NumField(); i++ {
-					f := st.Field(i)
+				// direct fields (embedded ones under the name of their type) and the fields promoted from
+				// embedded structs under their short name
+				for _, f := range reflect.VisibleFields(st) {
 					if !f.IsExported() {
 						continue
 					}
@@ -120,6 +121,41 @@ func enumIfacePaths(v *V, te string, depth int) []pinfo {
 	return out
 }
 
+// do the target paths p and one of used overlap once promoted fields are spelled out
+func conflictsWith(T string, used [][]string, p []string) bool {
+	xp := expandPath(T, p)
+	for _, u := range used {
+		xu := expandPath(T, u)
+		if isPrefix(xu, xp) || isPrefix(xp, xu) {
+			return true
+		}
+	}
+	return false
+}
+
+// static type of the slot at the end of a path through te ("" if it cannot be walked; "any" below an interface)
+func staticTypeAt(te string, p []string) string {
+	for _, f := range p {
+		switch {
+		case strings.HasPrefix(te, "map[string]"):
+			te = te[len("map[string]"):]
+		case te == "any":
+			return "any"
+		default:
+			st, ok := structTypes[strings.TrimPrefix(te, "*")]
+			if !ok {
+				return ""
+			}
+			sf, ok := st.FieldByName(f)
+			if !ok || !sf.IsExported() {
+				return ""
+			}
+			te = typeExpr(sf.Type)
+		}
+	}
+	return te
+}
+
 var strPool = []string{"", "s", "hello", "x1", "abc", "Zz"}
 
 type gen struct {
@@ -136,7 +172,7 @@ func (g *gen) leafInt() *V {
 func (g *gen) leafStr() *V { return vStr(g.r.Pick(strPool)) }
 
 var dynTypes = []string{"Inner", "*Inner", "Leaf", "*Leaf", "map[string]any", "map[string]int", "int", "string",
-	"map[int]string", "map[string]Leaf", "**Inner", "Outer", "map[string]map[string]any"}
+	"map[int]string", "map[string]Leaf", "**Inner", "Outer", "map[string]map[string]any", "Emb", "*Emb"}
 
 func (g *gen) value(te string, d int) *V {
 	r := g.r
@@ -230,10 +266,12 @@ func looseZeroExact(v *V, te string) bool {
 
 var srcTypeW = []string{"Outer", "Outer", "Outer", "*Outer", "*Outer", "Inner", "*Inner", "Leaf", "*Leaf",
 	"map[string]any", "map[string]any", "map[string]Inner", "map[string]*Inner", "map[string]Leaf",
-	"map[string]int", "map[string]string", "int", "string", "map[string]map[string]any", "any"}
+	"map[string]int", "map[string]string", "int", "string", "map[string]map[string]any", "any",
+	"Emb", "Emb", "*Emb", "map[string]Emb"}
 var tgtTypeW = []string{"Outer", "Outer", "Outer", "*Outer", "*Outer", "Inner", "*Inner", "Leaf",
 	"map[string]any", "map[string]any", "any", "map[string]Inner", "map[string]Inner", "map[string]*Inner",
-	"map[string]Leaf", "map[string]int", "map[string]string", "map[string]map[string]any", "map[string]Outer"}
+	"map[string]Leaf", "map[string]int", "map[string]string", "map[string]map[string]any", "map[string]Outer",
+	"Emb", "Emb", "*Emb", "map[string]Emb", "map[string]*Emb"}
 
 func compat(pt, st string) bool { return st == "any" || pt == st || pt == "any" }
 
@@ -252,12 +290,7 @@ func (g *gen) decl(T string, tpaths []pinfo, n int, used *[][]string) Decl {
 		okT := false
 		for try := 0; try < 30 && len(tpaths) > 0; try++ {
 			tp = tpaths[r.Intn(len(tpaths))]
-			conflict := false
-			for _, u := range *used {
-				if isPrefix(u, tp.path) || isPrefix(tp.path, u) {
-					conflict = true
-				}
-			}
+			conflict := conflictsWith(T, *used, tp.path)
 			feedable := try >= 24 || compat(S, tp.ty)
 			for _, p := range spaths {
 				if feedable {
@@ -345,7 +378,7 @@ func (g *gen) decl(T string, tpaths []pinfo, n int, used *[][]string) Decl {
 	return d
 }
 
-var overlapPatterns = []string{"equal", "prefix", "extension", "sibling-reset", "whole+field", "plain+field"}
+var overlapPatterns = []string{"equal", "prefix", "extension", "sibling-reset", "whole+field", "plain+field", "promoted-alias", "promoted-alias"}
 
 // add an overlapping target to the case; returns the pattern used
 func (g *gen) addOverlap(c *Case, tpaths []pinfo) string {
@@ -374,6 +407,56 @@ func (g *gen) addOverlap(c *Case, tpaths []pinfo) string {
 		return ""
 	}
 	switch pat {
+	case "promoted-alias":
+		// a field promoted from an embedded struct under its short name, beside the same field (or the embedded
+		// field, or something below the field) spelled through the embedded field (F-C15l)
+		var short []pinfo
+		for _, q := range tpaths {
+			if len(expandPath(c.T, q.path)) != len(q.path) {
+				short = append(short, q)
+			}
+		}
+		if len(short) == 0 {
+			return g.addOverlapExt(c, nd, ex, tpaths)
+		}
+		q := short[r.Intn(len(short))]
+		full := expandPath(c.T, q.path)
+		alias := full
+		switch r.Intn(4) {
+		case 0:
+			// the embedded field itself (a prefix); cut right after the first spelled-out step
+			for i := range q.path {
+				if i >= len(full) || full[i] != q.path[i] {
+					alias = full[:i+1]
+					break
+				}
+			}
+		case 1:
+			// something below the field, through the long spelling
+			for _, e := range tpaths {
+				if len(e.path) > len(q.path) && isPrefix(q.path, e.path) {
+					alias = append(append([]string{}, full...), e.path[len(q.path):]...)
+					break
+				}
+			}
+		}
+		d1 := g.declFor(c.T, q.path, q.ty)
+		d2 := g.declFor(c.T, alias, staticTypeAt(c.T, alias))
+		keep := c.Decls
+		if len(keep) > 1 {
+			keep = keep[:1]
+		}
+		if len(keep) == 1 && (conflictsWith(c.T, targetPaths(keep), q.path) || conflictsWith(c.T, targetPaths(keep), alias)) {
+			keep = nil
+		}
+		ds := append([]Decl{}, keep...)
+		if r.Chance(1, 2) {
+			ds = append(ds, d1, d2)
+		} else {
+			ds = append(ds, d2, d1)
+		}
+		c.Decls = ds
+		return pat
 	case "equal":
 		nd.Maps[0].To = ex
 	case "prefix":
@@ -599,7 +682,7 @@ func (g *gen) malformed(c *Case) string {
 // fields of struct- and pointer-valued map entries reached through instantiated pointers.
 func (g *gen) nilCase() *Case {
 	r := g.r
-	T := []string{"Outer", "*Outer", "map[string]Outer", "map[string]Inner", "map[string]*Inner", "Inner", "map[string]any", "any"}[r.Intn(8)]
+	T := []string{"Outer", "*Outer", "map[string]Outer", "map[string]Inner", "map[string]*Inner", "Inner", "map[string]any", "any", "Emb", "map[string]Emb"}[r.Intn(10)]
 	tpaths := enumPaths(T, g.depth, true)
 	c := &Case{T: T, Short: r.Chance(1, 2), Note: "nil-value"}
 	var used [][]string
@@ -609,13 +692,7 @@ func (g *gen) nilCase() *Case {
 		ok := false
 		for try := 0; try < 30; try++ {
 			tp = tpaths[r.Intn(len(tpaths))]
-			conflict := false
-			for _, u := range used {
-				if isPrefix(u, tp.path) || isPrefix(tp.path, u) {
-					conflict = true
-				}
-			}
-			if !conflict {
+			if !conflictsWith(T, used, tp.path) {
 				ok = true
 				break
 			}
@@ -676,13 +753,7 @@ func (g *gen) addStatics(c *Case, tpaths []pinfo) string {
 		var tp pinfo
 		for try := 0; try < 30; try++ {
 			tp = tpaths[r.Intn(len(tpaths))]
-			conflict := false
-			for _, u := range used {
-				if isPrefix(u, tp.path) || isPrefix(tp.path, u) {
-					conflict = true
-				}
-			}
-			if !conflict {
+			if !conflictsWith(c.T, used, tp.path) {
 				break
 			}
 		}
@@ -712,7 +783,8 @@ func (g *gen) addStatics(c *Case, tpaths []pinfo) string {
 // walker writes into that value
 func (g *gen) unitCase() *Case {
 	r := g.r
-	T := []string{"Outer", "Outer", "*Outer", "map[string]Outer", "map[string]Inner", "map[string]*Inner", "Inner", "map[string]any", "any", "map[string]map[string]any"}[r.Intn(10)]
+	T := []string{"Outer", "Outer", "*Outer", "map[string]Outer", "map[string]Inner", "map[string]*Inner", "Inner", "map[string]any", "any", "map[string]map[string]any",
+		"Emb", "*Emb", "map[string]*Emb"}[r.Intn(13)]
 	tpaths := enumPaths(T, g.depth, true)
 	if len(tpaths) == 0 {
 		return nil
@@ -731,9 +803,15 @@ func (g *gen) unitCase() *Case {
 	if r.Chance(1, 2) {
 		// an overlapping pair: a key and one of its extensions
 		var pairs [][2]pinfo
+		alias := r.Chance(1, 3)
 		for _, p := range tpaths {
+			xp := expandPath(T, p.path)
 			for _, q := range tpaths {
-				if len(q.path) > len(p.path) && isPrefix(p.path, q.path) {
+				if !alias && len(q.path) > len(p.path) && isPrefix(p.path, q.path) {
+					pairs = append(pairs, [2]pinfo{p, q})
+				}
+				// the same slot, or a slot and something below it, under two spellings (promoted field)
+				if xq := expandPath(T, q.path); alias && isPrefix(xp, xq) && !isPrefix(p.path, q.path) && !isPrefix(q.path, p.path) {
 					pairs = append(pairs, [2]pinfo{p, q})
 				}
 			}
@@ -757,13 +835,7 @@ func (g *gen) unitCase() *Case {
 		ok := false
 		for try := 0; try < 30; try++ {
 			tp = tpaths[r.Intn(len(tpaths))]
-			conflict := false
-			for _, u := range used {
-				if isPrefix(u, tp.path) || isPrefix(tp.path, u) {
-					conflict = true
-				}
-			}
-			if !conflict {
+			if !conflictsWith(T, used, tp.path) {
 				ok = true
 				break
 			}
